@@ -110,9 +110,12 @@ def replay(ctx, path):
         return 0
     front = obj['front']
     sched = [{k: v for k, v in e.items() if k != 'post'} for e in obj['rec']['ev']]
-    rec = pc.record(front, sched)
-    rej = judge.validate(ctx, 'NdnPitTrace', pc.trace_cfg(front, None), [rec], 'replay')
-    for i, lno in rej:
-        print('rejected at event', lno, json.dumps(rec['ev'][lno - 1] if lno else None))
-    print('re-executed on the current tree: %s' % ('REJECTED' if rej else 'accepted'))
-    return 1 if rej else 0
+    bad = 0
+    for mode in ('debug logging', 'quiet'):          # harness.appkit.log_mode alternates between the two
+        rec = pc.record(front, sched)
+        rej = judge.validate(ctx, 'NdnPitTrace', pc.trace_cfg(front, None), [rec], 'replay')
+        for i, lno in rej:
+            print('rejected at event', lno, json.dumps(rec['ev'][lno - 1] if lno else None))
+        print('re-executed on the current tree (%s): %s' % (mode, 'REJECTED' if rej else 'accepted'))
+        bad += 1 if rej else 0
+    return 1 if bad else 0
